@@ -1196,5 +1196,9 @@ func params(exp eval.Expression) *expr.MappedAttributeExpr {
 // a HTTP cookie attribute for use by the HTTP code generator.
 func cookieAttribute(name, value string) {
 	c := eval.Current().(*expr.HTTPResponseExpr).Cookies
+	if c == nil {
+		eval.ReportError("cookie %s is set but the response does not define a cookie, use Cookie to define one first", name)
+		return
+	}
 	c.AddMeta("cookie:"+name, value)
 }
